@@ -8,6 +8,7 @@ import (
 	"sort"
 	"strings"
 	"sync"
+	"time"
 
 	"github.com/blugelabs/bluge"
 
@@ -474,10 +475,13 @@ var c07MixedKinds = func() []string {
 	for i := 0; i < 3; i++ {
 		l = append(l, "term", "term", "match", "matchphrase", "multiphrase", "prefix", "wildcard", "regexp", "fuzzy", "termrange", "all", "none", "kwterm")
 	}
-	return append(l, "numrange", "daterange", "geobox", "geodist")
+	// (geo leaves only in their own corpus class: one geo leaf costs thousands of allocating look-ups,
+	// and a depth-3 tree holds dozens of leaves)
+	return append(l, "numrange", "daterange")
 }()
 
 func runC07(c *vk.Ctx) {
+	model.GeoHeavy = !c.Quick()
 	c.Rule("generated corpora (1..40 docs, 3..8 word vocabulary over {a,b,c}, 1..8 segments with pending deletions, merging off) x generated query trees (all leaf kinds, depth <= 3) served in sequence " +
 		"by a current-root reader, a superseded reader and an OpenReader reader, both collectors, every 10th query twice in a row; result ids compared as multisets with an independent evaluator; " +
 		"plus the small scope (assignments of 3 terms to 5 docs in 2 segments x a fixed list of boolean shapes of depth <= 2). " +
@@ -487,7 +491,7 @@ func runC07(c *vk.Ctx) {
 		"geo: points within a relative 1e-3 of a box edge / distance threshold are not decided",
 		"numeric/date ranges that run into C10's byte-wise enumeration blow-up are aborted by the step counter and left to C10",
 		"empty prefixes are not generated")
-	nCorp := c.Pick(130, 9000)
+	nCorp := c.Pick(240, 9000)
 	nQ := c.Pick(40, 50)
 	workers := runtime.NumCPU()
 	var wg sync.WaitGroup
@@ -508,9 +512,14 @@ func runC07(c *vk.Ctx) {
 				case 2:
 					kinds = []string{"term", "match", "matchphrase", "multiphrase", "prefix", "wildcard", "regexp", "fuzzy", "termrange"}
 				case 3: // numeric / date / geo leaves enumerate many dictionary terms: shallow trees, fewer queries
-					kinds = []string{"numrange", "numrange", "daterange", "daterange", "geobox", "geodist", "term"}
+					kinds = []string{"numrange", "numrange", "daterange", "daterange", "term"}
 					depth = 1
 					nq = nQ / 3
+					if i%8 == 7 { // geo searches are the most expensive ones (thousands of allocating look-ups each)
+						kinds = []string{"geobox", "geodist", "geobox", "geodist", "term"}
+						nq = c.Pick(8, 14)
+						depth = 2
+					}
 				}
 				qs := make([]*model.Q, nq)
 				for k := range qs {
@@ -520,7 +529,12 @@ func runC07(c *vk.Ctx) {
 				if i%3 == 0 {
 					dirKind = "fs"
 				}
+				t0 := time.Now()
 				c07CheckCorpus(c, co, qs, dirKind, i)
+				if d := time.Since(t0); d > 5*time.Second {
+					c.Event(fmt.Sprintf("slow_corpus_class%d_%s", i%8, dirKind), 1)
+					c.EventMax("slowest_corpus_ms", d.Milliseconds())
+				}
 				c.Event("corpora", 1)
 				if i < 2 {
 					c.Sample(map[string]interface{}{"corpus_docs": len(co.Final.Docs), "batches": len(co.Batches), "first_queries": []string{qs[0].String(), qs[1].String(), qs[2].String()}})
